@@ -169,6 +169,144 @@ def floorDiv (a b : Int) : Except Exc Int :=
 def floorMod (a b : Int) : Except Exc Int :=
   if b = 0 then .error .zeroDivisionError else .ok (Int.fmod a b)
 
+/-! ## w5-smallsrc: primitives of the small self-contained functions -/
+
+/-- `bin(i)`: `'0b'` and the binary digits, a leading `'-'` for a negative int -/
+def bin (i : Int) : Str :=
+  if i < 0 then '-' :: '0' :: 'b' :: Nat.toDigits 2 i.natAbs else '0' :: 'b' :: Nat.toDigits 2 i.toNat
+
+/-- a slice bound as CPython's `PySlice_AdjustIndices` clamps it (step 1): a negative bound counts from the
+    end, then the bound is clamped to `0 .. len` -/
+def sliceBound (len : Nat) (i : Int) : Nat :=
+  if i < 0 then (i + (len : Int)).toNat else min i.toNat len
+
+/-- `xs[lo:hi]` (no step; `none` = the bound is omitted): the items from `lo` up to but not including `hi`,
+    empty when `hi ≤ lo`; never raises -/
+def slice {α : Type} (xs : List α) (lo hi : Option Int) : List α :=
+  let a := match lo with | none => 0 | some i => sliceBound xs.length i
+  let b := match hi with | none => xs.length | some i => sliceBound xs.length i
+  (xs.drop a).take (b - a)
+
+/-- `a, b = xs` for a list `xs`: `ValueError` unless it has exactly two items -/
+def unpack2 {α : Type} : List α → Except Exc (α × α)
+  | [a, b] => .ok (a, b)
+  | _ => .error .valueError
+
+/-- `s.split(sep)` for a separator of one character: the pieces between the occurrences of `sep`
+    (`''.split('.') = ['']`; the result is never empty) -/
+def splitChar (sep : Char) : Str → List Str
+  | [] => [[]]
+  | c :: cs =>
+    if c = sep then [] :: splitChar sep cs
+    else match splitChar sep cs with
+      | [] => [[c]]            -- unreachable: the result is never empty
+      | hd :: tl => (c :: hd) :: tl
+
+namespace Small
+
+/-! ### `int(str)` (base 10), CPython 3.12
+
+  `PyLong_FromUnicodeObject`: every non-ASCII white-space character becomes a blank and every non-ASCII
+  decimal digit (Unicode category Nd) its ASCII digit (`_PyUnicode_TransformDecimalAndSpaceToASCII`; ASCII
+  characters are kept as they are, so U+001C..U+001F, for which `str.isspace` holds, are NOT blanks here);
+  then `PyLong_FromString`: blanks, one optional sign, digits with single underscores between digits,
+  blanks, end of string.  More than `sys.get_int_max_str_digits()` = 4300 digits (default; underscores, sign
+  and blanks not counted) is a `ValueError` as well.  Every failure is `ValueError`. -/
+
+/-- the white space `int()` skips around the number: `str.isspace` without U+001C..U+001F -/
+def isIntSpace (c : Char) : Bool :=
+  isSpaceChar c && !(28 ≤ c.toNat && c.toNat ≤ 31)
+
+/-- the code points of the digit zero of every decimal-digit run (Unicode category Nd) of Unicode 15.0.0
+    (`unicodedata.unidata_version` of the interpreter the harness runs pybufrkit with); each is followed by the
+    digits one to nine.  `harness/py2lean_small.py:check_decimal_zeros` compares this list with `unicodedata`
+    on every translation of a function that calls `int()`. -/
+def decimalZeros : List Nat := [
+  0x30, 0x660, 0x6f0, 0x7c0, 0x966, 0x9e6, 0xa66, 0xae6, 0xb66, 0xbe6, 0xc66, 0xce6,
+  0xd66, 0xde6, 0xe50, 0xed0, 0xf20, 0x1040, 0x1090, 0x17e0, 0x1810, 0x1946, 0x19d0, 0x1a80,
+  0x1a90, 0x1b50, 0x1bb0, 0x1c40, 0x1c50, 0xa620, 0xa8d0, 0xa900, 0xa9d0, 0xa9f0, 0xaa50, 0xabf0,
+  0xff10, 0x104a0, 0x10d30, 0x11066, 0x110f0, 0x11136, 0x111d0, 0x112f0, 0x11450, 0x114d0, 0x11650, 0x116c0,
+  0x11730, 0x118e0, 0x11950, 0x11c50, 0x11d50, 0x11da0, 0x11f50, 0x16a60, 0x16ac0, 0x16b50, 0x1d7ce, 0x1d7d8,
+  0x1d7e2, 0x1d7ec, 0x1d7f6, 0x1e140, 0x1e2f0, 0x1e4f0, 0x1e950, 0x1fbf0]
+
+/-- `unicodedata.decimal(c)` (`none` when `c` is not a decimal digit) -/
+def decimalDigitValue (c : Char) : Option Nat :=
+  (decimalZeros.find? fun z => z ≤ c.toNat && c.toNat < z + 10).map fun z => c.toNat - z
+
+/-- digits with single underscores between digits: value and number of digits so far -/
+def digitsVal : Nat → Nat → List Char → Option (Nat × Nat)
+  | acc, k, [] => some (acc, k)
+  | acc, k, c :: cs =>
+    match decimalDigitValue c with
+    | some d => digitsVal (acc * 10 + d) (k + 1) cs
+    | none =>
+      if c = '_' then
+        match cs with
+        | d :: _ => if (decimalDigitValue d).isSome then digitsVal acc k cs else none
+        | [] => none
+      else none
+
+/-- an unsigned literal: starts with a digit -/
+def natLit (s : Str) : Option (Nat × Nat) :=
+  match s with
+  | c :: _ => if (decimalDigitValue c).isSome then digitsVal 0 0 s else none
+  | [] => none
+
+/-- `sys.get_int_max_str_digits()` (default) -/
+def intMaxStrDigits : Nat := 4300
+
+/-- `int(s)` for a `str` -/
+def intOfStr (s : Str) : Except Exc Int :=
+  let t := ((s.dropWhile isIntSpace).reverse.dropWhile isIntSpace).reverse
+  let neg : Bool := t.head? == some '-'
+  let body := if t.head? == some '-' || t.head? == some '+' then t.drop 1 else t
+  match natLit body with
+  | none => .error .valueError
+  | some (n, k) =>
+    if k > intMaxStrDigits then .error .valueError
+    else .ok (if neg then -(Int.ofNat n) else Int.ofNat n)
+
+/-! ### `max`, `min`, `set` on lists of int -/
+
+/-- `max(xs)` (`ValueError` on the empty list) -/
+def maxOf : List Int → Except Exc Int
+  | [] => .error .valueError
+  | x :: xs =>
+    match maxOf xs with
+    | .error _ => .ok x                              -- `xs` is empty
+    | .ok y => .ok (if y ≤ x then x else y)
+
+/-- `min(xs)` (`ValueError` on the empty list) -/
+def minOf : List Int → Except Exc Int
+  | [] => .error .valueError
+  | x :: xs =>
+    match minOf xs with
+    | .error _ => .ok x
+    | .ok y => .ok (if x ≤ y then x else y)
+
+/-- `set(xs)` as the list of its distinct values (only `len(set(xs))` and `sorted(set(xs))` are translated, so
+    the order is immaterial; a value is kept at its last occurrence) -/
+def distinct : List Int → List Int
+  | [] => []
+  | x :: xs => if xs.contains x then distinct xs else x :: distinct xs
+
+/-- `enumerate(xs, k)` as a list of pairs -/
+def enumFrom {α : Type} : Nat → List α → List (Nat × α)
+  | _, [] => []
+  | k, x :: xs => (k, x) :: enumFrom (k + 1) xs
+
+/-- `enumerate(xs)` -/
+def enumerate {α : Type} (xs : List α) : List (Nat × α) := enumFrom 0 xs
+
+/-- insertion into an ascending list without duplicates -/
+def insertSorted (x : Int) : List Int → List Int
+  | [] => [x]
+  | y :: ys => if x < y then x :: y :: ys else if x = y then y :: ys else y :: insertSorted x ys
+
+/-- `sorted(set(xs))`: the distinct values in ascending order -/
+def sortedSet (xs : List Int) : List Int := xs.foldr insertSorted []
+
+end Small
 /-! ### additions for stateful classes (`NodePathParser`, C15): `None`-or-value, `slice` objects, `try/except`,
     `int(str)`, `str.find`, `sub in string` -/
 
@@ -274,5 +412,38 @@ def intOfStr (s : Str) : Except Exc Int :=
   | '-' :: r => intOfBody true r
   | '+' :: r => intOfBody false r
   | r => intOfBody false r
+/-! ### objects with mutable attributes (harness/py2lean_state.py, worker w5-codersrc)
+
+  `None`-or-list values are `Option (List α)`.  A value `functools.partial(next, iter(xs))` (a callable that
+  returns the next item of `xs` at every call) is represented by the items it has not returned yet, `some rest`;
+  the attribute that holds it may also hold `None`.  Assumption: the list `xs` is not mutated while the iterator
+  is alive (in `coder.py` the list `bitmapped_descriptors` is only ever re-bound, never mutated in place). -/
+
+/-- truth value of a `None`-or-list: `None` and the empty list are false -/
+def truthyOptList {α : Type} : Option (List α) → Bool
+  | none => false
+  | some l => !l.isEmpty
+
+/-- `functools.partial(next, iter(x))` for a `None`-or-list `x`: `iter(None)` raises `TypeError` -/
+def iterOpt {α : Type} : Option (List α) → Except Exc (Option (List α))
+  | none => .error .typeError
+  | some l => .ok (some l)
+
+/-- `f()` where `f` is `None` (`TypeError`: 'NoneType' object is not callable) or `functools.partial(next, it)`:
+    the next item and the callable afterwards, or `StopIteration` -/
+def callNext {α : Type} : Option (List α) → Except Exc (α × Option (List α))
+  | none => .error .typeError
+  | some [] => .error (.raised "StopIteration")
+  | some (x :: rest) => .ok (x, some rest)
+
+/-- `xs.pop()` as a statement (the popped item is discarded): the list without its last item; `IndexError` on `[]` -/
+def listPop {α : Type} (xs : List α) : Except Exc (List α) :=
+  if xs.isEmpty then .error .indexError else .ok xs.dropLast
+
+/-- `a ** b` on ints with an exponent not known to be non-negative: a negative exponent gives a float, which is
+    outside the modelled subset and reported as an error value (so no theorem `= .ok _` can be proved about it) -/
+def powInt (a b : Int) : Except Exc Int :=
+  if b < 0 then .error (.raised "py2lean: ** with a negative exponent (float result) is outside the modelled subset")
+  else .ok (a ^ b.toNat)
 
 end Py
